@@ -77,7 +77,41 @@ func fragmentations(r *rng.R, s []byte, thorough bool) [][][]byte {
 		}
 		out = append(out, cs)
 	}
+	// a reader that stops making progress: bufio's scanner tolerates 100 zero-length reads in a
+	// row and gives up on the 101st (io.ErrNoProgress) — runs of 99/100/101/150 at the start,
+	// inside a length prefix, inside a field, at the very end
+	if len(s) > 0 && (r.Intn(3) == 0 || thorough) {
+		run := []int{99, 100, 101, 150}[r.Intn(4)]
+		at := []int{0, 1, min(3, len(s)), r.Intn(len(s) + 1), len(s)}[r.Intn(5)]
+		var cs [][]byte
+		if at > 0 {
+			cs = append(cs, s[:at])
+		}
+		for z := 0; z < run; z++ {
+			cs = append(cs, []byte{})
+		}
+		if at < len(s) {
+			cs = append(cs, s[at:])
+		}
+		out = append(out, cs)
+	}
 	return out
+}
+
+// stallFree: no run of more than 100 zero-length reads (lean: Sasl.stallFree 0).
+func stallFree(cs [][]byte) bool {
+	run := 0
+	for _, c := range cs {
+		if len(c) == 0 {
+			run++
+			if run > 100 {
+				return false
+			}
+		} else {
+			run = 0
+		}
+	}
+	return true
 }
 
 func reqDecObs(rd io.Reader) string {
@@ -122,9 +156,12 @@ func (c *ctx) decAll(kind string, s []byte) {
 			c.emit(kind+" "+xl(cs), o)
 			if i == 0 && !ewl {
 				first = o
-			} else {
+			} else if stallFree(cs) {
 				// law: the result does not depend on the fragmentation
 				c.emit("law.C13.fragment_independent "+xl(cs), tf(o == first))
+			} else {
+				// law: a stalled reader can only turn the result into an error
+				c.emit("law.C13.chunked_result_is_stream_result "+xl(cs), tf(o == first || o == "err"))
 			}
 		}
 	}
